@@ -24,7 +24,7 @@ CHECKS = {
  "C07": ("proof", "Lean 4 naturality theorems (alg (map f) = mapItems f . alg) for 15 algorithms, injective-renaming naturality and list-vs-named equality of the sum vector (ckkF_list_dict_sums, snp_list_dict_sums, rnpF_list_dict_sums) for CKK/SNP/RNP + validity theorems generic in the value function + correspondence across the five input formats",
          "Full for the fold-shaped algorithms, KK, CG, CBLDM, DP (any renaming, so repeated values in list input are covered); for CKK and SNP full as well (equivariance under injective renamings + equality of the whole sum vector with the run on the bare values; for CKK after fix F11, the statement was false before); for RNP (k <= 5) by RNPDict.rnpF_list_dict_sums; each case is presented as list, numpy array, dict (string and integer names) and names+valueof and compared strictly with the model; known finding KF4 (bin_completion computes on names).", TB),
  "C08": ("proof", "Lean 4 theorems greedy_four_thirds (Graham), kk_four_thirds, greedy/kk/roundrobin_gap, roundrobin_monotone/cards, multifit_ratio_four_thirds, greedy_maxmin_partial_* + verified DP oracle for the remaining sharp ratios",
-         "Gap bounds and round-robin structure full; 4/3 - 1/(3k) proved in full for LPT and for Karmarkar-Karp; PARTIAL: LPT's max-min ratio proved as 2k/(3k-1) (exact ratio under a window hypothesis), multifit proved <= (5/4 + 2^-it) OPT instead of 1.22 + 2^-it; the sharp constants are searched for counter-examples with the verified oracle on every run.", TB),
+         "Gap bounds and round-robin structure full; 4/3 - 1/(3k) proved in full for LPT and for Karmarkar-Karp; PARTIAL: LPT's max-min ratio proved as 2k/(3k-1) for every k and exactly, (3k-1)/(4k-2), for k <= 4 and for every k when no item is below OPT/8, multifit proved <= (5/4 + 2^-it) OPT instead of 1.22 + 2^-it; the sharp constants are searched for counter-examples with the verified oracle on every run.", TB),
  "C09": ("proof", "Lean 4 theorems ff/bf(±decreasing)_anyfit, ff/bf_seventeen_tenths_strong (<= 1.7 OPT + 1), ffd/bfd_three_halves, ffd/bfd_partial_four_thirds + verified optBins oracle",
          "Any-fit invariant proved in full for all four heuristics in every arrival order; PARTIAL bounds: FF, BF <= floor(1.7 OPT) + 1 (weighting-function proof), FFD, BFD <= 3/2 OPT (absolute) and <= 5/4 OPT + 1, 11/9 OPT + 6/9 outside one range of the size of the last bin's first item; the absolute 1.7 and the 11/9 bounds are searched with the verified oracle.", TB),
  "C10": ("proof", "Lean 4 theorems cover_le_opt, coverDecreasing_half, twoThirds_two_thirds, threeQuarters_three_quarters + verified optCover oracle",
